@@ -1,11 +1,157 @@
 package main
 
-import "fmt"
+import (
+	"fmt"
+	"go/types"
+	"strings"
+)
 
-// lemmaHyps: proved lemmas are available to obligations as (quantified)
-// hypotheses. (filled in by lemma support)
-func (x *Exec) lemmaHyps(o *Obligation) []*Term { return nil }
+// Lemmas are sentences about spec functions and arithmetic. A lemma is
+// proved by its own obligations (for `induction v`: a base case v <= base
+// and a step that may use the lemma at v-1 for all values of the other
+// parameters). A function contract may then `use` a proved lemma: it is
+// added as a universally quantified hypothesis to that function's
+// obligations.
 
-func (e *Engine) lemmaObligations(lm *Lemma) ([]*Obligation, error) {
-	return nil, fmt.Errorf("lemmas not yet supported")
+func (e *Engine) lemmaExec(lm *Lemma) *Exec {
+	x := &Exec{eng: e, w: e.w, key: "lemma." + lm.Name, model: modelByName(lm.Model), sym: NewSymTab(),
+		heap0: map[string]*Term{}, heapSorts: map[string]Sort{}, entryVals: map[string]Val{},
+		heapified: map[types.Object]bool{}, usedSpecs: map[string]bool{}, trusted: map[string]bool{},
+		ord: map[string]int{}, closures: map[int64]*closure{}, global0: map[types.Object]*Term{}}
+	return x
+}
+
+// lemmaParams declares the parameters as constants (or, for quantified use,
+// as bound variables when bound != nil).
+func (x *Exec) lemmaParams(lm *Lemma, asBound bool) (map[string]Val, []BoundVar) {
+	env := &CEnv{x: x, pkg: x.eng.pkgTypes[lm.Pkg]}
+	vals := map[string]Val{}
+	var bvs []BoundVar
+	for _, p := range lm.Params {
+		ty := env.cty(p.Type)
+		if ty.K == TSlice {
+			es := x.w.sortOf(ty.Elem, x.model)
+			var arr, off, ln *Term
+			if asBound {
+				na, no, nl := x.freshBound(p.Name), x.freshBound(p.Name+"_off"), x.freshBound(p.Name+"_len")
+				arr, off, ln = mk(na, ArrSort(SInt, es)), mk(no, SInt), mk(nl, SInt)
+				bvs = append(bvs, BoundVar{na, arr.Sort}, BoundVar{no, SInt}, BoundVar{nl, SInt})
+			} else {
+				arr = x.sym.Const("lp_"+p.Name, ArrSort(SInt, es))
+				off = x.sym.Const("lp_"+p.Name+"_off", SInt)
+				ln = x.sym.Const("lp_"+p.Name+"_len", SInt)
+			}
+			vals[p.Name] = Val{T: arr, Ty: ty, Seq: &SeqView{Off: off, Len: ln, Elem: ty.Elem}}
+			continue
+		}
+		s := x.w.sortOf(ty, x.model)
+		if asBound {
+			n := x.freshBound(p.Name)
+			vals[p.Name] = Val{T: mk(n, s), Ty: ty}
+			bvs = append(bvs, BoundVar{n, s})
+		} else {
+			vals[p.Name] = Val{T: x.sym.Const("lp_"+p.Name, s), Ty: ty}
+		}
+	}
+	return vals, bvs
+}
+
+func (x *Exec) lemmaFormula(lm *Lemma, vals map[string]Val) (*Term, *Term) {
+	env := &CEnv{x: x, pkg: x.eng.pkgTypes[lm.Pkg], bound: vals, specMode: true}
+	var req, ens []*Term
+	for _, r := range lm.Requires {
+		req = append(req, env.evalBool(r.E))
+	}
+	// sequence parameters carry len >= 0
+	for _, v := range vals {
+		if v.Seq != nil {
+			req = append(req, Ge(v.Seq.Len, IntLit(0)))
+		}
+	}
+	for _, r := range lm.Ensures {
+		ens = append(ens, env.evalBool(r.E))
+	}
+	return And(req...), And(ens...)
+}
+
+// quantified returns the lemma as a closed universally quantified formula.
+func (x *Exec) lemmaQuantified(lm *Lemma) *Term {
+	vals, bvs := x.lemmaParams(lm, true)
+	req, ens := x.lemmaFormula(lm, vals)
+	var pats []*Term
+	if len(lm.Trigger) > 0 {
+		env := &CEnv{x: x, pkg: x.eng.pkgTypes[lm.Pkg], bound: vals, specMode: true}
+		for _, t := range lm.Trigger {
+			pats = append(pats, env.eval(t).T)
+		}
+	}
+	return Forall(bvs, Implies(req, ens), pats...)
+}
+
+func (e *Engine) lemmaObligations(lm *Lemma) (obls []*Obligation, err error) {
+	x := e.lemmaExec(lm)
+	defer func() {
+		if r := recover(); r != nil {
+			switch r := r.(type) {
+			case engineError:
+				err = fmt.Errorf("lemma %s: %s", lm.Name, r.msg)
+			case string:
+				err = fmt.Errorf("lemma %s: %s", lm.Name, r)
+			default:
+				panic(r)
+			}
+		}
+	}()
+	vals, _ := x.lemmaParams(lm, false)
+	req, ens := x.lemmaFormula(lm, vals)
+	hyps := []*Term{req}
+	if lm.Induction != "" {
+		iv, ok := vals[lm.Induction]
+		if !ok || iv.T.Sort != SInt {
+			return nil, fmt.Errorf("lemma %s: induction variable %s must be an int parameter", lm.Name, lm.Induction)
+		}
+		// induction hypothesis: the lemma for all parameter values with the
+		// induction variable one smaller.
+		vals2, bvs := x.lemmaParams(lm, true)
+		req2, ens2 := x.lemmaFormula(lm, vals2)
+		ih := Forall(bvs, Implies(And(Eq(vals2[lm.Induction].T, Sub(iv.T, IntLit(1))), req2), ens2))
+		hyps = append(hyps, ih)
+	}
+	for i, part := range splitGoal(ens) {
+		name := fmt.Sprintf("lemma.%s#%d", lm.Name, i+1)
+		obls = append(obls, &Obligation{Name: name, Func: "lemma." + lm.Name, Kind: "lemma", Hyps: hyps, Goal: part, X: x,
+			Src: lemmaSrc(lm)})
+	}
+	return obls, nil
+}
+
+func lemmaSrc(lm *Lemma) string {
+	var s []string
+	for _, r := range lm.Requires {
+		s = append(s, "requires "+r.Src)
+	}
+	for _, r := range lm.Ensures {
+		s = append(s, "ensures "+r.Src)
+	}
+	return strings.Join(s, "; ")
+}
+
+// lemmaHyps: lemmas named in the function contract's `use` list, as
+// quantified hypotheses.
+func (x *Exec) lemmaHyps(o *Obligation) []*Term {
+	if x.fc == nil || len(x.fc.Uses) == 0 {
+		return nil
+	}
+	var out []*Term
+	for _, name := range x.fc.Uses {
+		lm := x.eng.lemmas[name]
+		if lm == nil {
+			panic(engineError{"unknown lemma " + name})
+		}
+		if modelByName(lm.Model).Float != x.model.Float && lm.Model != "" {
+			// lemmas over ints only are model independent
+		}
+		out = append(out, x.lemmaQuantified(lm))
+	}
+	return out
 }
